@@ -1134,17 +1134,18 @@ class MorphFactory:
         Returns:
             True if generators are dependent.
         """
-        self.legs = legs.copy()
         for g in generators:
+            self.legs = [leg.copy() for leg in legs]
+            self.delayed_vertices = []
             try:
                 self._pipeline(g)
-            except AppendedException:
-                self.legs = legs.copy()
-                return False
-            except Exception:
+            except DependentException:
                 continue
+            except Exception:
+                self.legs = [leg.copy() for leg in legs]
+                return False
 
-        self.legs = legs.copy()
+        self.legs = [leg.copy() for leg in legs]
         return True
 
     def select_dependents(self, legs:list[list[PauliString]], generators:list[PauliString]
